@@ -1087,7 +1087,7 @@ Print Assumptions C07_codegen_simulates_heap_example_wide_runs.
    generator: no hypothesis looks at the emitted code any more.  New hypotheses (Sem/LabelGuard.v, Sem/WfGuard64.v):
      labels_guard      the label texts are unambiguous (known finding label-collision-name-digits outside it)
      imm_guard_a64     a type declares at most 1024 xtors (the table dispatch `ADD Xt, Xt, #4k` has a 12-bit immediate:
-                       a real limit of the back end, docs/C14.md), a Substitute lists at most 4096 pairs; tags_i64
+                       a real limit of the back end, docs/C14.md); tags_i64
                        follows and is dropped
      reach_guard_a64   28 + cg_fine_defs 14 74 < 262143 instructions: the routine is shorter than the reach of B.cond /
                        ADR (a real limit of the back end) and fits the image
